@@ -29,6 +29,8 @@ var c13Files = []string{
 	"2023-12-31\n    1h #a #b\n\n2024-01-01\n#a=1\n    2h #b=2\n    3h #a=2\n\n2024-12-31\n    23:00 - 0:30> #b\n\n2025-01-01\n    <23:30 - 0:10\n",
 	// single record, every entry kind
 	"2021-07-15 (7h!)\nSummary #s\n    1h\n    -1h\n    0m\n    8:00 - 9:00\n    9:00 - ? #s=1\n",
+	// the two date notations mixed within one year (string order differs from calendar order)
+	"2018-03-01\n    1h #m\n\n2018/01/30\n    2h #m=1\n\n2018-02-15\n    3h\n\n2017/12/31\n    4h #m\n\n2018/03/01\n    5h\n",
 	// descending order
 	"2021-09-10\n    1h #a\n\n2021-09-09\n    2h #a\n\n2021-09-01\n    3h #b\n\n2021-08-31\n#a\n    4h\n",
 }
@@ -307,7 +309,7 @@ func init() {
 	fw.Register(&fw.Check{
 		ID:    "C13",
 		Title: "Filters and sorting select exactly the matching data and never alter it",
-		Rule: "6 base files (<=4 records; calendar edges, duplicate and unsorted dates, tags at record and entry level with and without values, mixed case, every entry kind) x clauses: " +
+		Rule: "7 base files (<=4 records; calendar edges, duplicate and unsorted dates, tags at record and entry level with and without values, mixed case, every entry kind) x clauses: " +
 			"--date/--since/--until/--after/--before for every record date +-1 and thinned pairs, --period for every year/month/quarter/ISO week containing or adjacent to a record date, " +
 			"all 14 relative shortcuts under clocks at every record date + {0,+-1,+-7,+-31,92,366} days, 17 tag queries (case variants, values, quoted values, two tags), 6 entry-type spellings; " +
 			"all pairs tag x type, date x tag and date x type (dates thinned 1/9) and triples (1/41); each also with --sort asc and desc on a fixed stride; plus ALL 2^13+2^14 date assignments of 13/14 records over two dates for the sort itself. " +
